@@ -1345,6 +1345,14 @@ def _run(ctx, rng, lib, d):
         scen = G.Scenario(rng, p, k, n_chroms=rng.choice([1, 1, 2]), n_var=nv, **kw)
         check_cli(ctx, scen, d, n_relabel=2 if quick else 3)
 
+    # ---- many intersection blocks, each with switches AND flips (round 10: the totals are sums over the blocks — an accumulation
+    # bug in one column, e.g. flips taken as a maximum, needs >= 2 blocks with a non-zero value each)
+    for it in range((5 if quick else 40) * scale):
+        scen = G.Scenario(rng, 2, 2, n_chroms=1, n_var=(24, 40), p_switch=0.15, p_flip=0.35, cut=0.12, p_unphased=0.03, p_hom=0.03,
+                          p_missing=0.02, interleave=0.1)
+        ctx.dist("cli_many_blocks", True)
+        check_cli(ctx, scen, d, n_relabel=1)
+
     glue_stream(ctx, rng, d, (40 if quick else 400) * scale)
 
 
